@@ -495,3 +495,23 @@ theorem encAdd_vec (n : ℕ) : EncAdd (eVec n) where
   reshape u v := rfl
 
 end SkipWalk
+
+namespace SkipWalk
+open ChainLinks ConvVJP ConvBridge LayerChain
+
+/-- `c × h × w` tensors can be added: residual connections around spatial layers -/
+theorem encAdd_vol (c h w : ℕ) (hc : 0 < c) (hh : 0 < h) : EncAdd (eVol c h w) where
+  add u v := by
+    have hz := L.zipWith3_eq_zip3 (· + ·) (toList3 u) (toList3 v) c h w (toList3_dims u) (toList3_dims v)
+    simp only [eVol, T3, Tensor.add, Tensor.zipOp, ne_eq, not_true_eq_false, ↓reduceIte, ← hz]
+    congr 3
+    simp only [toList3, OfFn.zipWith_ofFn]
+    rfl
+  shape u v := rfl
+  reshape u v := by
+    obtain ⟨t, ht, hd, hf⟩ := L.toTriple_exact c h w (L.flatten3 (toList3 u))
+      (L.length_flatten3 _ c h w (toList3_dims u))
+    have : t = toList3 u := C14.dims3_flat_injective c h w _ _ hd (toList3_dims u) hf
+    simp only [eVol, T3, Tensor.reshape, Tensor.getFlat, ne_eq, not_true_eq_false, ↓reduceIte, ht, this]
+
+end SkipWalk
